@@ -79,7 +79,7 @@ def strategy(tier):
         n2 = draw(st.integers(1, 3))
         pts2 = [[mu, draw(st.integers(3, 6))] for mu in ladder(n2, 60.0)]
         pts2 = list(draw(st.permutations(pts2)))
-        overlap = draw(st.integers(0, 6)) == 0
+        overlap = draw(st.sampled_from([False] * 6 + [True]))
         if overlap:
             pts2.insert(draw(st.integers(0, len(pts2))), list(pts1[draw(st.integers(0, n1 - 1))]))
         mode = draw(st.sampled_from(MODES))
@@ -225,7 +225,11 @@ def check_case(case):
                     res.fail(f"{ID}/mismatch-accepted/{mode}",
                              f"{step}: second EKO starting at {bs.ep_of(init2)} accepted although the first EKO has "
                              f"targets {sorted(t1)} (rtol, atol = {case['tol'] or 'default'})")
-                now = snapshot(ini)
+                try:
+                    now = snapshot(ini)
+                except Exception as e:  # noqa: BLE001 - the archive left behind cannot be read
+                    res.fail(exc_bucket(f"{ID}/read-result/{step}", e), repr(e))
+                    return res
                 if set(now) != set(t1):
                     res.fail(f"{ID}/refused-but-modified", f"{step}: first EKO now holds {sorted(now)}")
                 if pres.exists() and raised is not None:
@@ -240,12 +244,20 @@ def check_case(case):
                 if not pres.exists():
                     res.fail(f"{ID}/copy/not-written", "no archive at the requested path")
                     return res
-                results["copy"] = bs.read_all(pres)
-                after = snapshot(ini)
+                try:
+                    results["copy"] = bs.read_all(pres)
+                    after = snapshot(ini)
+                except Exception as e:  # noqa: BLE001 - the archive left behind cannot be read
+                    res.fail(exc_bucket(f"{ID}/read-result/{step}", e), repr(e))
+                    return res
                 if set(after) != set(t1):
                     res.fail(f"{ID}/copy/modified-input", f"first EKO holds {sorted(after)} after a product with path=")
             else:
-                results["inplace"] = snapshot(ini)
+                try:
+                    results["inplace"] = snapshot(ini)
+                except Exception as e:  # noqa: BLE001 - the archive left behind cannot be read
+                    res.fail(exc_bucket(f"{ID}/read-result/{step}", e), repr(e))
+                    return res
         if expect_error:
             return res
 
